@@ -423,6 +423,16 @@ class Interp:
                 obj.fields[target_expr.attr] = new
             else:
                 self.event("lost_mutation", st)
+        elif isinstance(target_expr, ast.Call) and isinstance(target_expr.func, ast.Attribute) and target_expr.func.attr in ("setdefault", "get") and target_expr.args:
+            # d.setdefault(k, [])[i] = v  /  d.get(k)[i] = v: the (mutable) value stored under k is what was updated
+            obj = self.eval(target_expr.func.value, env)
+            if isinstance(obj, DictV):
+                key = self.eval(target_expr.args[0], env)
+                new2 = self.ops.store_subscript(obj, ("index", key), new, st, env, False)
+                if new2 is not None:
+                    self.rebind(target_expr.func.value, new2, env, st)
+            else:
+                self.event("lost_mutation", st)
         elif isinstance(target_expr, ast.Subscript):
             # xs[i][j] = v: the updated inner container is stored back into the outer one
             obj = self.eval(target_expr.value, env)
